@@ -13,6 +13,12 @@ HEADER_SETS = {
     "preflight-uppercase": [("ORIGIN", "https://app.example"), ("ACCESS-CONTROL-REQUEST-METHOD", "PUT"), ("ACCESS-CONTROL-REQUEST-HEADERS", "X-Custom, content-type")],
     "range-lowercase": [("range", "bytes=2-5")],
     "range-closed": [("Range", "bytes=2-5")],
+    "range-multi": [("Range", "bytes=0-1, 4-5")],
+    # what a browser sends along (must change nothing in the comparison)
+    "browser": [("Accept", "text/html,*/*;q=0.8"), ("Accept-Encoding", "gzip, deflate, br"), ("Accept-Language", "en-US,en;q=0.9"), ("Cache-Control", "no-cache"), ("Sec-Fetch-Dest", "image"), ("Sec-Fetch-Mode", "no-cors"),
+                ("Sec-Fetch-Site", "cross-site"), ("Save-Data", "on"), ("DNT", "1"), ("Upgrade-Insecure-Requests", "1"), ("Connection", "keep-alive")],
+    "conditional": [("If-None-Match", "*"), ("If-Modified-Since", "Thu, 01 Jan 2099 00:00:00 GMT")],
+    "conditional-range": [("Range", "bytes=1-3"), ("If-Range", "\"abc\"")],
 }
 VOLATILE = {"date-unix-epoch-nanos", "date"}
 
